@@ -119,7 +119,31 @@ func c05SCIONWorld(r *simcore.Run) any {
 		for i := 0; i < n; i++ {
 			var pl []byte
 			kind := ""
-			switch tp.Intn(16, "akind") {
+			switch tp.Intn(17, "akind") {
+			case 16:
+				if !useNTS {
+					continue
+				}
+				s2c := cl.Auth.NTSKEFetcher.VerifData().S2cKey
+				pt, ok := ntsOpenRaw(p.pld, s2c)
+				if !ok {
+					continue
+				}
+				hdr := append([]byte(nil), p.pld[:48]...)
+				switch tp.Intn(3, "resealed") {
+				case 0:
+					kind = "nts-resealed-origin-changed"
+					hdr[24+tp.Intn(8, "ob")] ^= 1 << tp.Intn(8, "obit")
+				case 1:
+					kind = "nts-resealed-stratum-0"
+					hdr[1] = 0
+				default:
+					kind = "nts-resealed-li-3"
+					hdr[0] |= 0xc0
+				}
+				resealed := ntsReseal(hdr, uidOf(p.pld), pt, s2c)
+				pl = scRebuild(p, func(s *slayers.SCION, u *slayers.UDP, pld *[]byte) { *pld = resealed })
+				r.Probe("scion-nts-resealed")
 			case 14:
 				if !useNTS {
 					continue
